@@ -248,24 +248,26 @@ Definition gemm_k0 (m n : N) (beta : K) (bs : bias) (o : omat) : omat :=
 (* ---- gemv (vector-matrix fast path; a.rows() == 1, both operands unpacked) ----
    out_data.par_chunks_mut(b_block_size): column chunks; inside, depth chunks of k_block_size
    with effective_beta; bias after all depth chunks. *)
+Definition gemv_chunk (n k bb kb : N) (alpha beta : K) (bs : bias) (A B : mat) (cidx : N)
+           (o : omat) : omat :=
+  let cs := cidx * bb in let ce := N.min (cs + bb) n in
+  let o1 :=
+    fold_left (fun o didx =>
+      let ds := didx * kb in let de := N.min (ds + kb) k in
+      let eb := if didx =? 0 then beta else r1 K in
+      pw_update (fun i j => (i =? 0) && (cs <=? j) && (j <? ce))
+        (fun i j v => acc_elem eb alpha (dot A B 0 j ds (de - ds)) v) o)
+      (nrange 0 (div_ceil k kb)) o in
+  match bs with
+  | NoBias => o1
+  | ColBias f => pw_update (fun i j => (i =? 0) && (cs <=? j) && (j <? ce))
+                   (fun i j v => add_elem (f 0) v) o1
+  | RowBias f => pw_update (fun i j => (i =? 0) && (cs <=? j) && (j <? ce))
+                   (fun i j v => add_elem (f j) v) o1
+  end.
 Definition gemv (n k bb kb : N) (alpha beta : K) (bs : bias) (A B : mat) (o : omat) : omat :=
-  fold_left (fun o cidx =>
-    let cs := cidx * bb in let ce := N.min (cs + bb) n in
-    let o1 :=
-      fold_left (fun o didx =>
-        let ds := didx * kb in let de := N.min (ds + kb) k in
-        let eb := if didx =? 0 then beta else r1 K in
-        pw_update (fun i j => (i =? 0) && (cs <=? j) && (j <? ce))
-          (fun i j v => acc_elem eb alpha (dot A B 0 j ds (de - ds)) v) o)
-        (nrange 0 (div_ceil k kb)) o in
-    match bs with
-    | NoBias => o1
-    | ColBias f => pw_update (fun i j => (i =? 0) && (cs <=? j) && (j <? ce))
-                     (fun i j v => add_elem (f 0) v) o1
-    | RowBias f => pw_update (fun i j => (i =? 0) && (cs <=? j) && (j <? ce))
-                     (fun i j v => add_elem (f j) v) o1
-    end)
-    (nrange 0 (div_ceil n bb)) o.
+  fold_left (fun o cidx => gemv_chunk n k bb kb alpha beta bs A B cidx o)
+            (nrange 0 (div_ceil n bb)) o.
 
 (* ---- gemm_impl: dispatch ---- *)
 Inductive lhs_src := LUnpackedStrided | LUnpackedUnit | LPrepacked.
